@@ -13,8 +13,11 @@ for l in open("/verif/properties.jsonl"):
     p = json.loads(l)
     if p["id"] == prop: P = p
 earlier = []
-for m in sorted(glob.glob("/verif/seeded/m*-%s-*/meta.json" % prop)):
-    earlier.append("- " + json.load(open(m))["needs_to_manifest"])
+anch = P.get("anchors", {}); anch = anch.get("files", []) if isinstance(anch, dict) else []
+for m in sorted(glob.glob("/verif/seeded/m*/meta.json")):
+    mm = json.load(open(m)); touched = [l.split(" b/")[-1].strip() for l in open(os.path.dirname(m) + "/patch.diff") if l.startswith("diff --git")]
+    if mm["breaks_property"] == prop or any(t in anch for t in touched):
+        earlier.append("- (%s) %s" % (", ".join(touched), mm["needs_to_manifest"]))
 ptxt = json.dumps({k: P[k] for k in P if k != "id"}, indent=1)
 open(wt + "/TASK.md", "w").write(f"""# Task
 
